@@ -13,6 +13,7 @@ from .loader import AnalysisError
 from .report import Report, load_known
 
 
+_CACHE: dict = {}
 _ACTIVE: list[str] = []  # properties whose rule module is running (borrowers and sources); breaks C22 <-> C28
 
 
@@ -21,18 +22,28 @@ def delegate(repo, rep: Report, tier: str, src_pid: str, src_rules: tuple[str, .
         # the source is itself waiting for this borrower's rules: its own rules are what the outer call copies
         return 0
     mod = importlib.import_module(f"sa.rules.{src_pid.lower()}")
-    sub = Report(src_pid, tier, mod.LEVEL, "")
-    pushed = [p for p in (rep.pid, src_pid) if p not in _ACTIVE]
-    _ACTIVE.extend(pushed)
-    try:
-        mod.run(repo, sub, tier)
-    except AnalysisError as exc:
-        sub.defer(str(exc))
-    except Exception as exc:  # the source's rule module met a shape it does not handle: not analysed, never a pass
-        sub.defer(f"rule module crashed: {type(exc).__name__}: {exc}")
-    finally:
-        for p in pushed:
-            _ACTIVE.remove(p)
+    # one run of a lender per process and tree: borrowers of borrowers would otherwise re-run whole rule modules
+    # over and over (C28 -> C21 -> C20 -> C15 ...; the chains grew exponentially). A cached run is reused only when it
+    # has obligations for the rules asked for - a run made while some property was active skipped what it borrows
+    # from that property, and is then repeated in the present context.
+    key = (id(repo), src_pid, tier)
+    sub = _CACHE.get(key)
+    if sub is not None and not any(o["rule"] in src_rules for o in sub.obligations):
+        sub = None
+    if sub is None:
+        sub = Report(src_pid, tier, mod.LEVEL, "")
+        pushed = [p for p in (rep.pid, src_pid) if p not in _ACTIVE]
+        _ACTIVE.extend(pushed)
+        try:
+            mod.run(repo, sub, tier)
+        except AnalysisError as exc:
+            sub.defer(str(exc))
+        except Exception as exc:  # the source's rule module met a shape it does not handle: not analysed, never a pass
+            sub.defer(f"rule module crashed: {type(exc).__name__}: {exc}")
+        finally:
+            for p in pushed:
+                _ACTIVE.remove(p)
+        _CACHE[key] = sub
     known = [k for k in load_known() if k["property"] == src_pid and k.get("status") == "known"]
     n = 0
     for o in sub.obligations:
@@ -60,3 +71,23 @@ def delegate(repo, rep: Report, tier: str, src_pid: str, src_rules: tuple[str, .
             rep.defer(f"[{src_pid}] {d}")
     rep.floor(f"obligations borrowed from {src_pid} {'/'.join(src_rules)}", n, floor)
     return n
+
+
+def run_lender(repo, borrower_pid: str, src_pid: str, tier: str) -> Report:
+    """the lender's whole report (cached per process and tree), for borrowers that copy all of its rules"""
+    key = (id(repo), src_pid, tier)
+    sub = _CACHE.get(key)
+    if sub is None:
+        mod = importlib.import_module(f"sa.rules.{src_pid.lower()}")
+        sub = Report(src_pid, tier, mod.LEVEL, "")
+        pushed = [p for p in (borrower_pid, src_pid) if p not in _ACTIVE]
+        _ACTIVE.extend(pushed)
+        try:
+            mod.run(repo, sub, tier)
+        except AnalysisError as exc:
+            sub.defer(str(exc))
+        finally:
+            for p in pushed:
+                _ACTIVE.remove(p)
+        _CACHE[key] = sub
+    return sub
